@@ -371,7 +371,7 @@ class LogicalType(type):  # noqa
                 except Exception as e:
                     context.handle_error(e)
                     break
-            return value
+            # do not return here: an error collected above (collect_errors=True) must be raised below
 
         elif cls.combinator == "|":
             # Union type
